@@ -1,4 +1,5 @@
 import Munge.Gen.Dec
+import Munge.Lemmas.ConfReads
 /-
 C06 — Credentials are valid exactly inside their time window; TTLs are bounded.
 
@@ -133,5 +134,11 @@ example : (dec_validate_time 300 1000000 999700 3600 1).ret = 0 := by decide
 example : (dec_validate_time 4294967295 1000000 1003601 3600 1).err = EMUNGE_CRED_EXPIRED := by decide
 /-- wrap region (encode time 10 s after the epoch, ttl 300): fails closed as REWOUND -/
 example : (dec_validate_time 300 10 20 3600 1).ret = -1 := by decide
+
+/-- The pipeline's source files consult exactly the configuration fields that the model's `Conf` carries (table regenerated
+    from the source on every run): the theorems above, stated for every `cf`, cover every configuration switch that can
+    influence the validity window.  A new `conf->…` dependence in enc.c / dec.c / cred.c / m_msg.c breaks this. -/
+theorem conf_fields_as_modelled : Munge.Gen.Dec.confReads = Munge.Cred.confAsModelled :=
+  Munge.Cred.conf_reads_as_modelled
 
 end Munge.C06
